@@ -1,0 +1,36 @@
+//go:build verif
+
+package influxql
+
+// C15: passwords never appear in printed statements or sanitized text.
+//
+// Printers: a read-frame condition: no load of the Password field anywhere in
+// the methods or their callees, hence the result does not depend on it.
+//@ func (*CreateUserStatement).String
+//@   props C15 C13
+//@   safety C13
+//@   modifies @ast
+//@   frameprops C14 C17
+//@   noread CreateUserStatement.Password
+//@   requires s != nil
+//@ func (*SetPasswordUserStatement).String
+//@   props C15 C13
+//@   safety C13
+//@   modifies @ast
+//@   frameprops C14 C17
+//@   noread SetPasswordUserStatement.Password
+//@   requires s != nil
+
+// Sanitize: with the trusted model of FindAllStringSubmatchIndex (matches in
+// increasing, non-overlapping order, group 1 inside the match), each pass copies
+// the text between the group spans unchanged and replaces each group-1 span by
+// "[REDACTED]"; without a match the text is returned unchanged.
+//@ func Sanitize
+//@   props C15 C13
+//@   safety C13 C15
+//@   modifies @ast
+//@   frameprops C14 C17
+//@   loop 1 invariant 0 <= i && i <= len(query) && -1 <= rangeindex && rangeindex < len(matches) && (rangeindex + 1 < len(matches) ==> i <= matches[rangeindex+1][0])
+//@   loop 1 step content(buf) == scat(scat(old(content(buf)), smt("ssub", query, old(i), match[2])), "[REDACTED]") && i == match[3]
+//@   loop 2 invariant 0 <= i && i <= len(query) && -1 <= rangeindex && rangeindex < len(matches) && (rangeindex + 1 < len(matches) ==> i <= matches[rangeindex+1][0])
+//@   loop 2 step content(buf) == scat(scat(old(content(buf)), smt("ssub", query, old(i), match[2])), "[REDACTED]") && i == match[3]
